@@ -1,6 +1,6 @@
 """Sender-side rules of the unix backend: FD-BOUND (C15), SEND-CHECK/SEND-PROP (C09),
 RETRY-* (C13), FRAG-ROUTE/ONE-PACKET/DEDICATED-LAST (C02/C04), FRAG-CONTIG/HDR-SYM (C01)."""
-from vlib.flow import Explorer, Expr, Tracer, edge_label, expr_str, expr_strip_blocks, label_variants
+from vlib.flow import ref_place, Explorer, Expr, Tracer, edge_label, expr_str, expr_strip_blocks, label_variants
 from vlib.mir import callee_name, op_const, op_local, op_place, strip_generics
 
 INF = 10 ** 9
@@ -887,16 +887,22 @@ def rule_dedicated_last(ctx, cfg, F):
         trg = Tracer(g)
         pops = [(b, t) for b, t in g.calls_to("std::vec::Vec::pop")]
         R.count("pops[%s]" % cfg, len(pops))
+        def vec_id(op):
+            rp = ref_place(g, op)
+            if rp is not None and not g.local_ty(rp[0]).startswith("&"):
+                return rp
+            return (_root_local(g, trg, op), ())
         for b, t in pops:
-            V = _root_local(g, trg, t["args"][0])
+            Vk = vec_id(t["args"][0])
+            V = Vk[0] if not Vk[1] else None
             pushes = [pb for pb, pt in g.calls() if strip_generics(callee_name(pt)) in ("std::vec::Vec::push", "std::vec::Vec::extend_from_slice", "std::vec::Vec::extend", "std::iter::Extend::extend")
-                      and _root_local(g, trg, pt["args"][0]) == V]
+                      and vec_id(pt["args"][0]) == Vk]
             if not pushes and V is not None:
                 # the list was created whole from the control-message data (`slice.to_vec()`): its creation is the one append
                 pushes = [db for (db, si_, node) in g.defs().get(V, []) if si_ is None and (strip_generics(callee_name(node)).endswith("::to_vec") or strip_generics(callee_name(node)).endswith("::collect")
                                                                                              or strip_generics(node.get("callee") or "") in ("std::borrow::ToOwned::to_owned", "std::convert::From::from"))]
             disturb = [pb for pb, pt in g.calls() if strip_generics(callee_name(pt)) in ("std::vec::Vec::insert", "std::vec::Vec::remove", "std::vec::Vec::swap_remove", "core::slice::reverse", "core::slice::swap", "std::vec::Vec::drain", "std::vec::Vec::truncate")
-                       and _root_local(g, trg, pt["args"][0]) == V]
+                       and vec_id(pt["args"][0]) == Vk]
             in_loop = any(b in g.natural_loop(h) and any(p in g.natural_loop(h) for p in pushes) for h in g.loop_headers())
             after = all(b in g.reachable(g.term(p)["to"]) for p in pushes)
             if pushes and not disturb and not in_loop and after:
